@@ -373,7 +373,9 @@ def run_message_property_with(ctx, spec, pre_problems=None):
                 out = driver_out(ctx, ["dec-one", r["key"], hx], driver=r.get("_drv"))
                 line = [l for l in out.split("\n") if l.startswith("dec\t")][0].split("\t")
                 rr = parse_rows([{"suite": "dec", "cols": line[1:], "model": []}])[0]
-                return not pt(rr)
+                keep = spec.get("shrink_keep")
+                # a failing VALID encoding (one the reference accepts) is shrunk to valid encodings only
+                return (not pt(rr)) and (keep is None or keep(rr)) and (r["ost"] != "ok" or rr["ost"] == "ok")
             hx = r["hex"][1:]
             try:
                 if fails(hx):
@@ -658,15 +660,17 @@ def check_C08(ctx):
 def check_C02(ctx):
     return run_message_property(ctx, dict(
         theorems=["C02_value_rules", "C02_field", "C02_tag", "C02_loop_is_dispatch", "C02_flat_message", "C02_every_decode_body", "C02_varint_reader", "C02_unmarshal_is_reference_decoder", "C02_exchange_records_reference", "C02_exchange_records_unmarshal", "C02_split_submessage", "C02_replace_records", "C02_packed_unpacked_reference", "C02_packed_unpacked_unmarshal", "C02_packed_split", "C02_same_meaning_records", "C02_nonminimal_varint"],
-        suites=lambda c: [("decv", ["decv", c.seed, _n(c, 8000, 60000)])],
+        suites=lambda c: [("decv", ["decv", c.seed, _n(c, 8000, 60000)])] + fresh_suites(c, [("decv", ["decv", c.seed + 21, _n(c, 4000, 30000), ".proto:"])]),
         prop={"dec": lambda r: r["ist"] == "ok" and r["ost"] == "ok" and r["flags"].get("c02") == "ok"},
+        shrink_keep=lambda rr: rr["ost"] == "ok",     # the replay stays a valid encoding (one the reference accepts)
         tie={"dec": tie_dec_val}, spec={"dec": spec_dec}, nontrivial=nontrivial_any, rule=DEC_RULE + " (valid stream only); oracle: proto.Unmarshal of the same bytes"))
 
 
 def check_C10(ctx):
     return run_message_property(ctx, dict(
         theorems=["C10_known_untouched", "C10_retag", "C10_skip_varint", "C10_unknown_token", "C10_unmarshal_is_reference_decoder"],
-        suites=lambda c: [("decv", ["decv", c.seed + 7, _n(c, 6000, 60000)]), ("decb", ["decb", c.seed + 7, _n(c, 4000, 30000)]), ("deep", ["deep", c.seed])],
+        suites=lambda c: [("decv", ["decv", c.seed + 7, _n(c, 6000, 60000)]), ("decb", ["decb", c.seed + 7, _n(c, 4000, 30000)]), ("deep", ["deep", c.seed])] +
+                         fresh_suites(c, [("decv", ["decv", c.seed + 22, _n(c, 4000, 30000), ".proto:"]), ("decb", ["decb", c.seed + 22, _n(c, 2000, 20000), ".proto:"])]),
         prop={"dec": lambda r: r["ist"] != "PANIC" and (r["ist"] != "ok" or r["flags"].get("wf") == "1") and
               (r["tag"] != "valid" or (r["ist"] == "ok" and r["flags"].get("c02") == "ok")) and
               (r["flags"].get("wf") != "1" or r["ost"] != "ok" or r["ist"] == "ok")},   # well-formed and accepted by the reference (e.g. 10 001 nested unknown groups): accepted
@@ -688,7 +692,8 @@ def check_C04(ctx):
 def check_C05(ctx):
     return run_message_property(ctx, dict(
         theorems=["C05_invalid_number", "C05_truncated_tag", "C05_wrong_wire", "C05_sticky_next", "C05_sticky_pop", "C05_skip_is_one_value", "C05_accepts_exactly_wellformed"],
-        suites=lambda c: [("decb", ["decb", c.seed + 3, _n(c, 10000, 100000)]), ("decv", ["decv", c.seed + 3, _n(c, 2500, 20000)]), ("deep", ["deep", c.seed])],
+        suites=lambda c: [("decb", ["decb", c.seed + 3, _n(c, 10000, 100000)]), ("decv", ["decv", c.seed + 3, _n(c, 2500, 20000)]), ("deep", ["deep", c.seed])] +
+                         fresh_suites(c, [("decb", ["decb", c.seed + 23, _n(c, 4000, 30000), ".proto:"])]),
         prop={"dec": lambda r: r["ist"] != "PANIC" and (r["ist"] == "ok") == (r["flags"].get("wf") == "1")},
         tie={"dec": tie_dec_ok}, spec={"dec": spec_dec}, nontrivial=nontrivial_any,
         rule=DEC_RULE + "; oracle: independent well-formedness predicate on protobuf-go's protowire; projection: err == nil"))
@@ -697,7 +702,7 @@ def check_C05(ctx):
 def check_C09(ctx):
     return run_message_property(ctx, dict(
         theorems=["C09_no_reset", "C09_cursor", "C09_overwrite", "C09_tokens", "C09_reference", "C09_unmarshal_concat"],
-        suites=lambda c: [("hist", ["hist", c.seed, _n(c, 5000, 40000)])],
+        suites=lambda c: [("hist", ["hist", c.seed, _n(c, 5000, 40000)])] + fresh_suites(c, [("hist", ["hist", c.seed + 24, _n(c, 2500, 20000), ".proto:"])]),
         prop={"hist": lambda r: r["flags"].get("seq") == "ok" and r["flags"].get("ref") == "ok"},
         tie={"hist": tie_hist}, nontrivial=nontrivial_any,
         rule="histories of 1-4 valid (rewritten) encodings of one type decoded sequentially into one message and in one call on the concatenation; "
